@@ -23,7 +23,7 @@ ASSUMPTIONS = ["SciPy/NLopt choose the query points; the oracle is per call and 
                "rounding: |signed - sign*cost| <= 0.5*10^-p and signed is a multiple of 10^-p to floating-point accuracy"]
 
 COSTVALS = (0.0, -0.0, 1.0, 0.123456789, -0.00000005, 1e-9, 12345.678912345)
-GLISTS = ([-1.0], [-1.0, -2.0], [0.0], [1.0, -1.0], [-1e-300])
+GLISTS = ([-1.0], [-1.0, -2.0], [0.0], [1.0, -1.0], [-1e-300], [-4.0, float("nan")], [float("nan"), -1.0], [-1.0, -2.0, 5e-324])
 
 
 def sat(g):
@@ -44,7 +44,7 @@ def sign_for(crit):
 
 
 # ---------------------------------------------------------------- (A) batch protocol
-def check_batch(n, mix, repeats, crit, parallel):
+def check_batch(n, mix, repeats, crit, parallel, same_ids=False):
     from artap.algorithm import DummyAlgorithm
     from artap.individual import Individual
     from .c_support import make_problem, reset_ids
@@ -66,9 +66,11 @@ def check_batch(n, mix, repeats, crit, parallel):
             ind.state = Individual.State.EVALUATED
             ind.costs = [99.0 + k]
             ind.costs_signed = [sign_for(crit) * (99.0 + k), True]
+        if same_ids:
+            ind.id = 7           # distinct designs that carry the same id (copies, reloaded individuals)
         batch.append(ind)
     out = []
-    desc = "n=%d evaluated-mix=%r repeats=%d criteria=%s parallel=%r" % (n, mix, repeats, crit, parallel)
+    desc = "n=%d evaluated-mix=%r repeats=%d criteria=%s parallel=%r same_ids=%r" % (n, mix, repeats, crit, parallel, same_ids)
     from ..core.sched import default_parallel
     for rep in range(repeats):
         before = len(problem.h_log)
@@ -347,6 +349,9 @@ def _shard(shard, col: Collector):
                     for crit in ("minimize", "maximize"):
                         rec("batch", {"n": n, "mix": mix, "repeats": repeats, "crit": crit, "parallel": parallel},
                             check_batch(n, mix, repeats, crit, parallel), not all(mix))
+                        if n >= 2 and repeats == 1:
+                            rec("batch", {"n": n, "mix": mix, "repeats": repeats, "crit": crit, "parallel": parallel, "same_ids": True},
+                                check_batch(n, mix, repeats, crit, parallel, True), not all(mix))
         col.sample({"kind": "batch", "n": 3, "already_evaluated": [False, True, False], "repeats": 2, "parallel": parallel}, 1)
     elif kind == "signed":
         _, m = shard
@@ -396,7 +401,7 @@ def _shard(shard, col: Collector):
 
 def replay(sub, case):
     if sub == "batch":
-        return check_batch(case["n"], tuple(case["mix"]), case["repeats"], case["crit"], case["parallel"])
+        return check_batch(case["n"], tuple(case["mix"]), case["repeats"], case["crit"], case["parallel"], case.get("same_ids", False))
     if sub == "signed":
         return check_signed(tuple(case["costs"]), tuple(case["crits"]), case["prec"])
     if sub == "constraints":
